@@ -93,6 +93,22 @@ def gen(rng):
             ops.append({"op": "randomize", "obj": 0})
         elif explicit:
             ops.append({"op": "seed", "obj": 0, "k": rng.randrange(1 << 20), "s": rng.choice([None, None, "top.a[3]"])})
+    if rng.random() < 0.4:
+        # one RandState object seeds several replays, on this object and on a second one, with calls interleaved: every
+        # set_randstate copies its argument, so each of them starts the same sequence
+        ops.append({"op": "mkstate", "k": rng.randrange(1 << 20)})
+        i = nsnap
+        nsnap += 1
+        ops.append({"op": "restore", "obj": 0, "i": i})
+        ops += [{"op": "randomize", "obj": 0} for _ in range(rng.randint(1, 2))]
+        if rng.random() < 0.6:
+            ops.append({"op": "new"})
+            ops.append({"op": "restore", "obj": 1, "i": i})
+            ops.append({"op": "randomize", "obj": 1})
+            ops.append({"op": "randomize", "obj": 0})
+            ops.append({"op": "randomize", "obj": 1})
+        ops.append({"op": "restore", "obj": 0, "i": i})
+        ops += [{"op": "randomize", "obj": 0} for _ in range(rng.randint(1, 2))]
     if not explicit:
         # an object that was never given a state keeps the one it drew at its first use: a snapshot taken now replays
         ops += [{"op": "snap", "obj": 0}, {"op": "randomize", "obj": 0}, {"op": "randomize", "obj": 0},
@@ -120,41 +136,65 @@ def run_cfg(scn, cfg, tmpdir, tag):
 
 
 def replay_spec(scn, seq):
-    """the property's snapshot clauses, on one observed value sequence: after restore(i) the calls replay
-    the calls that followed snap(i) - as long as those followed it without an intervening re-seed or restore,
-    and the replayed call is the same call (same kind, same inline block)"""
+    """the property's snapshot clauses, on one observed value sequence: after set_randstate(snapshot i) an object's calls
+    replay the calls that followed the point the snapshot stands for - the get_randstate() that took it or, for a state the
+    user made with mkFromSeed, the first set_randstate of it - as long as those followed it on one object without an
+    intervening re-seed or restore of that object, and the replayed call is the same call (same kind, same inline block)"""
     bad = []
     calls = [o for o in scn["ops"] if o["op"] in ("randomize", "with")]
-    seg = 0
-    call_seg = []            # segment of each call
-    snap_at = {}             # snapshot -> (segment, index of the next call)
+
+    def same_call(a, b):
+        return json.dumps({k: v for k, v in a.items() if k != "obj"}) == json.dumps({k: v for k, v in b.items() if k != "obj"})
+    seg = {}                 # object -> its current segment (changes at every re-seed / restore of that object)
+    nseg = [0]
+    call_seg = []            # (object, segment) of each call
+    snap_at = {}             # snapshot -> ((object, segment), index of the next call) or None (not yet anchored)
     nsn = 0
     ci = 0
-    pending = None           # (snapshot, offset)
+    pending = {}             # object -> (snapshot, offset)
+
+    def new_seg(o):
+        nseg[0] += 1
+        seg[o] = nseg[0]
     for op in scn["ops"]:
         t = op["op"]
+        o = op.get("obj", 0)
         if t == "snap":
-            snap_at[nsn] = (seg, ci)
+            snap_at[nsn] = ((o, seg.get(o, 0)), ci)
             nsn += 1
-        elif t in ("seed", "seed_global"):
-            seg += 1
-            pending = None
+        elif t == "mkstate":
+            snap_at[nsn] = None
+            nsn += 1
+        elif t == "seed_global":
+            for x in list(seg) + [0]:
+                new_seg(x)
+            pending.clear()
+        elif t == "seed":
+            new_seg(o)
+            pending.pop(o, None)
         elif t == "restore":
-            seg += 1
-            pending = (op["i"], 0)
+            new_seg(o)
+            if snap_at[op["i"]] is None:
+                snap_at[op["i"]] = ((o, seg[o]), ci)       # the reference sequence starts here
+                pending.pop(o, None)
+            else:
+                pending[o] = (op["i"], 0)
         elif t in ("randomize", "with"):
-            call_seg.append(seg)
-            if pending is not None:
-                i, off = pending
+            call_seg.append((o, seg.get(o, 0)))
+            if o in pending:
+                i, off = pending[o]
                 sseg, sci = snap_at[i]
-                ref = sci + off
-                ok = ref < ci and ref < len(call_seg) and call_seg[ref] == sseg and json.dumps(calls[ref]) == json.dumps(calls[ci])
-                if ok and ref < len(seq) and ci < len(seq):
-                    if seq[ref] != seq[ci]:
+                # the off-th call of the reference object's segment at or after sci
+                refs = [k for k in range(sci, ci) if call_seg[k] == sseg]
+                ok = off < len(refs) and same_call(calls[refs[off]], calls[ci])
+                if ok and refs[off] < len(seq) and ci < len(seq):
+                    ref = refs[off]
+                    # (a failed call leaves the values the object held before it, which are not part of what is replayed)
+                    if seq[ref][0] != seq[ci][0] or (seq[ref][0] == "ok" and seq[ref] != seq[ci]):
                         bad.append({"restore_of_snapshot": i, "call": ci, "replayed": seq[ci], "original_call": ref, "original": seq[ref]})
-                    pending = (i, off + 1)
+                    pending[o] = (i, off + 1)
                 else:
-                    pending = None
+                    pending.pop(o, None)
             ci += 1
     return bad
 
